@@ -189,12 +189,13 @@ fn vals(rng: &mut Rng, cnt: usize, bits: u32) -> Vec<i128> {
 pub fn generate(tier: &str, seed: u64) -> Vec<Rec> {
     let mut rng = Rng::new(seed);
     let mut out = Vec::new();
-    let reps = if tier == "thorough" { 6000 } else { 900 };
+    let reps = if tier == "thorough" { 3000 } else { 900 };
     let codes = [7001i64, 7002, 7003, 7004, 7005, 7006, 7007, 7008, 7009, 7010, 7011, 7012, 7020, 7020, 7021];
     for it in 0..reps {
         let code = codes[(it as usize) % codes.len()];
         let be = rng.range(1, 4) as i128;
-        let logn = if tier == "thorough" && rng.below(40) == 0 { rng.range(7, 10) } else { rng.range(3, 6) };
+        // (the model's exact product is quadratic in N: a few records at N = 128, 256; every degree to 2^16 is round-tripped below)
+        let logn = if tier == "thorough" && rng.below(60) == 0 { rng.range(7, 8) } else { rng.range(3, 6) };
         let n = 1usize << logn;
         let (rcols, acols, bcols) = (rng.range(1, 3) as usize, rng.range(1, 3) as usize, rng.range(1, 3) as usize);
         let (rsize, asize, bsize) = (rng.range(1, 6) as usize, rng.range(1, 6) as usize, rng.range(1, 6) as usize);
